@@ -126,6 +126,9 @@ def run(tier, work):
            "behaviours_replayed": nbeh, "advance_steps_validated": advances,
            "model_divergences": total_div, "samples": samples, "exhaustive": True,
            "constants": "scaled wheel 4/4/2/2/1 slots, shifts 1/3/5/6/7; see spec/TimerWheelMC_*.cfg"}
+    # the wheel slots are intrusive lists over the entries' second link set (List.tla at pointer grain)
+    import listcheck
+    cov.update(listcheck.stage(work, v, "C04", thorough))
     rcode = v.finish()
     if total_div:
         print("note: %d step(s) where the real wheel's placement/removal differs from TimerWheel.tla "
